@@ -68,5 +68,33 @@ func buildPipeline(g *scheduler.ExecutionGraph, stages []*stageDefinition, cfg *
 		}
 	}
 
+	for name, stage := range g.Nodes() {
+		for _, dep := range stage.DependsOn {
+			if _, err := g.Node(dep); err != nil {
+				return nil, fmt.Errorf("stage %s depends on unknown stage %s", name, dep)
+			}
+		}
+	}
+
 	return g, nil
+}
+
+// includesPipeline reports whether pipeline g includes target, directly or through other pipelines
+func includesPipeline(g, target *scheduler.ExecutionGraph, seen map[*scheduler.ExecutionGraph]bool) bool {
+	if seen[g] {
+		return false
+	}
+	seen[g] = true
+
+	for _, stage := range g.Nodes() {
+		if stage.Pipeline == nil {
+			continue
+		}
+
+		if stage.Pipeline == target || includesPipeline(stage.Pipeline, target, seen) {
+			return true
+		}
+	}
+
+	return false
 }
